@@ -4,11 +4,13 @@ CONSTANTS
     P = 1
     Vals = {0, 1, 2}
     Targets = {0, 1, 2}
+    TopTargets = {0, 1}
     Kinds = {"mse", "gini", "entropy", "error"}
-    Depths = {0, 1, 3}
+    Depths = {0, 1, 2, 3}
     Msls = {1, 2}
     Msss = {0, 3}
-    ReplayMod = 40
+    TieOrders = "all"
+    ReplayMod = 20
 SPECIFICATION Spec
 INVARIANT TypeOK
 INVARIANT RevalidationNeverFails
